@@ -75,7 +75,7 @@ def ops_for(fnlabel):
     }
     if fnlabel in m:
         return m[fnlabel]
-    if fnlabel.startswith('HasChildren::'):
+    if fnlabel.startswith('HasChildren::') or fnlabel.endswith('::insert_by_id'):
         return ['dom.tree_atomic']
     if fnlabel == 'dom::XmlNode::order':
         return ['dom.order_keys']
